@@ -20,6 +20,9 @@ ALLOWED = {"lru_time_cache::LruCache::<Key, Value>::with_expiry_duration",
 
 
 def check(env, rep, tier):
+    include(rep, env, tier, "c09", ("C09.1",), "C20.4",
+            "'a follow-up block after expiry is handled like the first of a new transfer (continues from an empty buffer)': the upload "
+            "handler has no test of its own that compares a block's offset with what is buffered - only the bounded splice turns blocks down")
     include(rep, env, tier, "c12", ("C12.1", "C12.2"), "C20.3",
             "'expired state is reclaimed / nothing outlives the configured duration': the expiring cache is the only place the handler keeps "
             "per-transfer state (no second map, static or interior-mutable field beside it that expiry never touches)")
